@@ -57,6 +57,9 @@ type Oblig struct {
 	slimText   string
 	identText  string
 	Slim       bool
+	Hinted     bool
+	hintText   string // assumption slice named by a hint (built before the parallel phase)
+	hintName   string
 }
 
 type VC struct {
@@ -76,6 +79,7 @@ type VC struct {
 	sentUse map[string]bool
 	nowLast *Term
 	failed  string // unsupported reason
+	internalSeen map[string]int // internal clause name -> number of exits it was checked at
 	ghostVars map[string]*Term
 	accessed  map[string]bool
 	noLoadFacts bool
@@ -461,6 +465,7 @@ type Frame struct {
 	bind   []Val
 	depth  int
 	prefix string // obligation name prefix for inlined frames
+	exitBlock *ssa.BasicBlock // while internal clauses are evaluated: the block of the return being checked
 	exits  []frameExit
 	loops  *loopInfo
 	inline bool
@@ -480,6 +485,7 @@ type frameExit struct {
 	st      *State
 	results []Val
 	panics  bool
+	block   *ssa.BasicBlock
 }
 
 type loopInfo struct {
